@@ -4,6 +4,11 @@
 //        [0] (rejected) | [-2] (panic) | [1 [[product tag cluster err] per probe]] ; the observation is the sorted list
 //        of DISTINCT summaries.  probes = [[host vip? path] ...]
 //   [2 K [[sub weight] ...]] : bal_gslb.Init on a Go map, K times; summary [0] | [1 [[name weight]...] total single avail]
+//   [3 K A B [[key murmur64] ...]] : reload-history independence of the balancer: A, B = gslb sub-cluster maps; every
+//        sub-cluster N has one backend "bk_N".  fresh = Init(B)+BackendInit ; hist = Init(A)+BackendInit+Reload(B)+BackendReload.
+//        summary [-1 c] (A or B has no positive weight) | [stateF stateH picksF picksH] with state = [[name weight]...] total
+//        single (avail if single else -1) and picks = [[sub-cluster backend] per key] chosen by BalanceGslb.Balance for a
+//        request whose client IP bytes are the key (murmur3.Sum64(key) is the input column for the model)
 package main
 
 import (
@@ -17,7 +22,9 @@ import (
 
 	"github.com/bfenetworks/bfe/bfe_balance/bal_gslb"
 	"github.com/bfenetworks/bfe/bfe_basic"
+	"github.com/bfenetworks/bfe/bfe_config/bfe_cluster_conf/cluster_table_conf"
 	"github.com/bfenetworks/bfe/bfe_config/bfe_cluster_conf/gslb_conf"
+	"github.com/spaolacci/murmur3"
 	"github.com/bfenetworks/bfe/bfe_http"
 	"github.com/bfenetworks/bfe/bfe_route"
 )
@@ -125,8 +132,156 @@ func impl(in hv.Val) hv.Val {
 			}
 			return hv.L{hv.I(1), subs, hv.I(total), hv.Bool(single), hv.I(avail)}
 		})
+	case 3:
+		mk := func(v hv.Val) (gslb_conf.GslbClusterConf, cluster_table_conf.ClusterBackend) {
+			conf := gslb_conf.GslbClusterConf{}
+			tbl := cluster_table_conf.ClusterBackend{}
+			for _, e := range hv.AsList(v) {
+				kv := hv.AsList(e)
+				name := hv.AsStr(kv[0])
+				conf[name] = int(hv.AsInt(kv[1]))
+				bn, addr, port, w := "bk_"+name, "10.0.0.1", 80+len(tbl), 1
+				tbl[name] = cluster_table_conf.SubClusterBackend{&cluster_table_conf.BackendConf{Name: &bn, Addr: &addr, Port: &port, Weight: &w}}
+			}
+			return conf, tbl
+		}
+		confA, tblA := mk(l[2])
+		confB, tblB := mk(l[3])
+		var keys [][]byte
+		for _, p := range hv.AsList(l[4]) {
+			keys = append(keys, hv.AsBytes(hv.AsList(p)[0]))
+		}
+		view := func(bal *bal_gslb.BalanceGslb) (hv.Val, hv.Val) {
+			names, weights, total, single, avail := bal_gslb.VerifC14State(bal)
+			subs := hv.L{}
+			for i := range names {
+				subs = append(subs, hv.L{hv.S(names[i]), hv.I(weights[i])})
+			}
+			if !single {
+				avail = -1 // only meaningful (and only maintained by Reload) when single
+			}
+			picks := hv.L{}
+			for _, k := range keys {
+				req := &bfe_basic.Request{ClientAddr: &net.TCPAddr{IP: net.IP(k), Port: 1}, HttpRequest: &bfe_http.Request{}}
+				bk, err := bal.Balance(req)
+				name := ""
+				if err == nil && bk != nil {
+					name = bk.Name
+				}
+				picks = append(picks, hv.L{hv.S(req.Backend.SubclusterName), hv.S(name)})
+			}
+			return hv.L{subs, hv.I(total), hv.Bool(single), hv.I(avail)}, picks
+		}
+		return distinct(hv.AsInt(l[1]), func() hv.Val {
+			fresh := bal_gslb.NewBalanceGslb("c14")
+			if err := fresh.Init(confB); err != nil {
+				return hv.Err(2)
+			}
+			fresh.BackendInit(tblB)
+			hist := bal_gslb.NewBalanceGslb("c14")
+			if err := hist.Init(confA); err != nil {
+				return hv.Err(1)
+			}
+			hist.BackendInit(tblA)
+			if err := hist.Reload(confB); err != nil {
+				return hv.Err(2)
+			}
+			hist.BackendReload(tblB)
+			sf, pf := view(fresh)
+			sh, ph := view(hist)
+			return hv.L{sf, sh, pf, ph}
+		})
 	}
 	return hv.Err(0)
+}
+
+func genReload(r *hv.Rng) (string, hv.Val) {
+	pool := []string{"a", "b", "c", "m", "m1", "n", "sub_a", "sub_b", "x", "z", "B", "Z", "_", "aa"}
+	for j := len(pool) - 1; j > 0; j-- {
+		k := r.Intn(j + 1)
+		pool[j], pool[k] = pool[k], pool[j]
+	}
+	nA := r.Range(1, 5)
+	type sw struct {
+		n string
+		w int
+	}
+	weight := func() int {
+		if r.Chance(1, 5) {
+			return r.Range(-1, 0)
+		}
+		return r.Range(1, 20)
+	}
+	var a, b []sw
+	for j := 0; j < nA; j++ {
+		a = append(a, sw{pool[j], weight()})
+	}
+	a[0].w = r.Range(1, 20)
+	next := nA
+	class := "reload-same"
+	b = append(b, a...)
+	switch r.Intn(6) {
+	case 0: // weights only
+		for j := range b {
+			if r.Bool() {
+				b[j].w = weight()
+			}
+		}
+		class = "reload-weights"
+	case 1, 2: // same count: remove k sub-clusters, add k new names (before / between / after in name order)
+		k := r.Range(1, nA)
+		for j := 0; j < k; j++ {
+			b[r.Intn(nA)] = sw{pool[next], weight()}
+			next++
+		}
+		class = "reload-replace-same-count"
+	case 3: // grow
+		for k := r.Range(1, 3); k > 0; k-- {
+			b = append(b, sw{pool[next], weight()})
+			next++
+		}
+		class = "reload-add"
+	case 4: // shrink
+		if nA > 1 {
+			b = b[:r.Range(1, nA-1)]
+			class = "reload-remove"
+		}
+	case 5: // everything renamed, new order
+		b = nil
+		for k := r.Range(1, 5); k > 0; k-- {
+			b = append(b, sw{pool[next], weight()})
+			next++
+		}
+		class = "reload-rename-all"
+	}
+	// a replaced slot may have been overwritten twice: names in b stay distinct because pool entries are used once
+	seen := map[string]bool{}
+	var b2 []sw
+	for _, e := range b {
+		if !seen[e.n] {
+			seen[e.n] = true
+			b2 = append(b2, e)
+		}
+	}
+	b = b2
+	b[r.Intn(len(b))].w = r.Range(1, 20)
+	for j := len(b) - 1; j > 0; j-- { // the file order of B is unrelated to A's
+		k := r.Intn(j + 1)
+		b[j], b[k] = b[k], b[j]
+	}
+	val := func(l []sw) hv.Val {
+		out := hv.L{}
+		for _, e := range l {
+			out = append(out, hv.L{hv.S(e.n), hv.I(e.w)})
+		}
+		return out
+	}
+	probes := hv.L{}
+	for k := 0; k < 12; k++ {
+		key := []byte{10, byte(r.Intn(256)), byte(r.Intn(256)), byte(r.Intn(256))}
+		probes = append(probes, hv.L{hv.B(key), hv.U(murmur3.Sum64(key))})
+	}
+	return class, hv.L{hv.I(3), hv.I(12), val(a), val(b), probes}
 }
 
 var probePaths = []string{"/a", "/a/b", "/a/", "/ab", "/b", "/b/x", "/", "", "/c/d/e", "/e", "/z"}
@@ -202,6 +357,9 @@ func tiny(r *hv.Rng) *confload.SDC {
 }
 
 func gen(r *hv.Rng, i int, tier string) (string, hv.Val) {
+	if r.Chance(1, 4) {
+		return genReload(r)
+	}
 	if r.Chance(1, 8) { // bal_gslb.Init
 		n := r.Range(1, 7)
 		subs := hv.L{}
